@@ -204,8 +204,25 @@ def linearize_dict(kwargs, separator=".") -> dict:
     return dict_
 
 
-@lru_cache(maxsize=1000)
 def color_validator(color_input, allow_None=True, parent_name=""):
+    """validates color inputs, see `_color_validator`. Results are cached; the types of the
+    input are part of the cache key, because e.g. the tuples `(0, 0, 1)` (rgb, 0-255) and
+    `(0.0, 0.0, 1.0)` (rgb, 0-1) compare equal but denote different colors."""
+    if isinstance(color_input, (tuple, list)):
+        color_input = tuple(color_input)
+        input_types = tuple(type(c) for c in color_input)
+    else:
+        input_types = type(color_input)
+    return _color_validator(
+        color_input,
+        allow_None=allow_None,
+        parent_name=parent_name,
+        _input_types=input_types,
+    )
+
+
+@lru_cache(maxsize=1000)
+def _color_validator(color_input, allow_None=True, parent_name="", _input_types=None):
     """validates color inputs based on chosen `backend', allows `None` by default.
 
     Parameters
